@@ -1592,6 +1592,232 @@ def gen_alias_history(r, nops, et=None, preamble_only=False):
 
 
 # ------------------------------------------------------------------------------------------------
+# containers created inside functions: every evaluation of a literal is a NEW container
+
+ACT_DECLS = "ActBox :: blob {\n    items: [int],\n    n: int,\n}\n"
+
+
+class _ActSpec:
+    """one container literal as written in a function body, its access path, and its Python twin"""
+
+    def __init__(self, r, allow_str=True, lists_only=False):
+        self.kind = r.choice(["list"] * 6 + ([] if lists_only else ["dict", "set"]))
+        self.et = r.choice([INT, INT, STR]) if (allow_str and self.kind != "dict") else INT
+        pool = [1, 2, 3, 7] if self.et == INT else ["a", "b", "c", "q"]
+        self.init = [r.choice(pool) for _ in range(r.choice([0, 0, 0, 1, 2, 3]))]
+        ws = ["bare", "tup0", "tup0", "tup1", "tup1", "nest"]
+        if self.kind == "list" and self.et == INT:
+            ws.append("blob")
+        self.wrap = r.choice(ws)
+        self.bind = r.choice(["::", ":="])
+        self.pool = pool
+
+    def container_lit(self):
+        et = self.et
+        if self.kind == "list":
+            return sy(list(self.init), LIST(et))
+        if self.kind == "dict":
+            return "dict.from_list(%s)" % sy([(k, k) for k in self.init], LIST(TUP(et, et))) if self.init else "dict.new()"
+        return "set.from_list(%s)" % sy(list(self.init), LIST(et)) if self.init else "set.new()"
+
+    def literal(self):
+        c = self.container_lit()
+        return {"bare": c, "tup0": "(%s, 0)" % c, "tup1": "(1, %s)" % c, "nest": "((%s, \"x\"), 2)" % c,
+                "blob": "ActBox { items: %s, n: 0 }" % c}[self.wrap]
+
+    def path(self, v):
+        return {"bare": v, "tup0": v + "[0]", "tup1": v + "[1]", "nest": v + "[0][0]", "blob": v + ".items"}[self.wrap]
+
+    def uses_blob(self):
+        return self.wrap == "blob"
+
+    def arg_type(self):
+        return sy_type(self.et)
+
+    def fresh(self):
+        if self.kind == "list":
+            return list(self.init)
+        if self.kind == "dict":
+            return {k: k for k in self.init}
+        return set(self.init)
+
+    def mutate_src(self, path, x_expr):
+        if self.kind == "list":
+            return "list.push(%s, %s)" % (path, x_expr)
+        if self.kind == "dict":
+            return "dict.update(%s, %s, %s)" % (path, x_expr, x_expr)
+        return "set.add(%s, %s)" % (path, x_expr)
+
+    def mutate(self, c, x):
+        if self.kind == "list":
+            c.append(x)
+        elif self.kind == "dict":
+            c[x] = x
+        else:
+            c.add(x)
+
+    def len_src(self, path):
+        return "%s.len(%s)" % (self.kind, path)
+
+    def value(self, r):
+        return r.choice(self.pool)
+
+    def show_obs(self, c):
+        """lines printed by obs_src"""
+        return [str(len(c))] + ([show(c, LIST(self.et))] if self.kind == "list" else [])
+
+    def obs_src(self, path, indent="    "):
+        L = [indent + "print(%s)" % self.len_src(path)]
+        if self.kind == "list":
+            L.append(indent + "print(%s)" % path)
+        return L
+
+
+def _act_twice(r, u):
+    sp = _ActSpec(r)
+    f = "f%d" % u
+    defs = ["%s :: fn x: %s -> int do" % (f, sp.arg_type()), "    c %s %s" % (sp.bind, sp.literal()),
+            "    " + sp.mutate_src(sp.path("c"), "x"), "    " + sp.len_src(sp.path("c")), "end"]
+    body, exp = [], []
+    for _ in range(r.choice([2, 3])):
+        x = sp.value(r)
+        body.append("    print(%s(%s))" % (f, sy(x, sp.et)))
+        c = sp.fresh()
+        sp.mutate(c, x)
+        exp.append(str(len(c)))
+    return defs, body, exp, sp
+
+
+def _act_returned(r, u):
+    sp = _ActSpec(r)
+    sp.wrap = r.choice(["bare", "tup0", "tup1"])
+    g = "g%d" % u
+    defs = ["%s :: fn x: %s do" % (g, sp.arg_type())]      # return type inferred
+    defs = ["%s :: fn x: %s ->" % (g, sp.arg_type()), "    c %s %s" % (sp.bind, sp.literal()),
+            "    " + sp.mutate_src(sp.path("c"), "x"), "    c", "end"]
+    x1, x2, y = sp.value(r), sp.value(r), sp.value(r)
+    a, b = "a%d" % u, "b%d" % u
+    body = ["    %s := %s(%s)" % (a, g, sy(x1, sp.et)), "    %s := %s(%s)" % (b, g, sy(x2, sp.et)),
+            "    " + sp.mutate_src(sp.path(a), sy(y, sp.et))]
+    body += sp.obs_src(sp.path(a)) + sp.obs_src(sp.path(b))
+    ca, cb = sp.fresh(), sp.fresh()
+    sp.mutate(ca, x1)
+    sp.mutate(cb, x2)
+    sp.mutate(ca, y)
+    return defs, body, sp.show_obs(ca) + sp.show_obs(cb), sp
+
+
+def _act_recursive(r, u):
+    sp = _ActSpec(r, allow_str=False)
+    f = "rec%d" % u
+    defs = ["%s :: fn n: int do" % f, "    acc %s %s" % (sp.bind, sp.literal()), "    " + sp.mutate_src(sp.path("acc"), "n"),
+            "    if n > 0 do", "        %s(n - 1)" % f, "    end"] + sp.obs_src(sp.path("acc")) + ["end"]
+    depth = r.choice([1, 2, 3])
+    exp = []
+    for n in range(0, depth + 1):               # the deepest level reports first
+        c = sp.fresh()
+        sp.mutate(c, n)
+        exp += sp.show_obs(c)
+    return defs, ["    %s(%d)" % (f, depth)], exp, sp
+
+
+def _act_closure(r, u):
+    sp = _ActSpec(r, allow_str=False)
+    mk = "mk%d" % u
+    defs = ["%s :: fn -> fn int -> int do" % mk, "    state %s %s" % (sp.bind, sp.literal()), "    fn x: int -> int do",
+            "        " + sp.mutate_src(sp.path("state"), "x"), "        " + sp.len_src(sp.path("state")), "    end", "end"]
+    k1, k2 = "k%da" % u, "k%db" % u
+    body = ["    %s := %s()" % (k1, mk), "    %s := %s()" % (k2, mk)]
+    c1, c2 = sp.fresh(), sp.fresh()
+    exp = []
+    for _ in range(r.choice([3, 4, 5])):
+        which = r.random() < 0.5
+        x = sp.value(r)
+        body.append("    print(%s(%s))" % (k1 if which else k2, sy(x, INT)))
+        c = c1 if which else c2
+        sp.mutate(c, x)
+        exp.append(str(len(c)))
+    return defs, body, exp, sp
+
+
+def _act_loop(r, u):
+    sp = _ActSpec(r, allow_str=False)
+    f = "lf%d" % u
+    i = "i%d" % u
+    defs = ["%s :: fn x: int -> int do" % f, "    c %s %s" % (sp.bind, sp.literal()),
+            "    " + sp.mutate_src(sp.path("c"), "x"), "    " + sp.len_src(sp.path("c")), "end"]
+    sp2 = _ActSpec(r, allow_str=False)
+    n = r.choice([2, 3])
+    body = ["    %s := 0" % i, "    loop %s < %d do" % (i, n), "        print(%s(%s))" % (f, i),
+            "        w%d %s %s" % (u, sp2.bind, sp2.literal()), "        " + sp2.mutate_src(sp2.path("w%d" % u), i)]
+    body += sp2.obs_src(sp2.path("w%d" % u), indent="        ") + ["        %s = %s + 1" % (i, i), "    end"]
+    exp = []
+    for k in range(n):
+        c = sp.fresh()
+        sp.mutate(c, k)
+        exp.append(str(len(c)))
+        c2 = sp2.fresh()
+        sp2.mutate(c2, k)
+        exp += sp2.show_obs(c2)
+    sp.blob2 = sp2.uses_blob()
+    return defs, body, exp, sp
+
+
+def _act_default_acc(r, u):
+    sp = _ActSpec(r, allow_str=False, lists_only=True)
+    sp.wrap = "bare"
+    go, wrap = "go%d" % u, "wrap%d" % u
+    defs = ["%s :: fn n: int, acc: [int] -> [int] do" % go, "    list.push(acc, n)", "    if n > 0 do",
+            "        ret %s(n - 1, acc)" % go, "    end", "    acc", "end",
+            "%s :: fn n: int -> [int] do" % wrap, "    %s(n, %s)" % (go, sp.literal()), "end"]
+    body, exp = [], []
+    for _ in range(2):
+        n = r.choice([0, 1, 2])
+        body.append("    print(%s(%d))" % (wrap, n))
+        exp.append(show(list(sp.init) + list(range(n, -1, -1)), LIST(INT)))
+    return defs, body, exp, sp
+
+
+_ACT_TEMPLATES = [_act_twice, _act_returned, _act_recursive, _act_recursive, _act_closure, _act_closure, _act_loop, _act_default_acc]
+
+
+def activation_programs(r, n):
+    """n std-bundled Sylt programs in which containers are created INSIDE functions from literals (lists, dicts,
+    sets; bare, inside tuples, nested tuples and blobs; `::` and `:=`) and the function is called twice, is
+    recursive, is a closure factory called twice, is called in a loop, or passes the literal as an accumulator.
+    Returns (source, expected printed lines); the expectation is the obvious one: a fresh container per
+    evaluation of the literal."""
+    out = []
+    for _ in range(n):
+        defs, body, exp, blob = [], [], [], False
+        for u in range(r.choice([1, 2, 2, 3])):
+            d, b, e, sp = r.choice(_ACT_TEMPLATES)(r, u)
+            defs += d
+            body += b
+            exp += e
+            blob = blob or sp.uses_blob() or getattr(sp, "blob2", False)
+        src = "from maybe use (Maybe)\n" + (ACT_DECLS if blob else "") + "\n".join(defs) + "\nstart :: fn do\n" + "\n".join(body) + "\nend\n"
+        out.append((src, exp))
+    return out
+
+
+def check_activation_programs(ctx, n, salt="activation"):
+    """compile the programs with the real compiler, run them, and return the failing (source, expected, actual)"""
+    r = _vlib().rng(ctx.seed, salt)
+    progs = activation_programs(r, n)
+    runs = compile_run([p for p, _ in progs])
+    bad = []
+    for (src, exp), run in zip(progs, runs):
+        got = run["trace"] if run["status"] == "OK" else ["<rejected by the compiler: %s>" % run["status"][:160]]
+        if run["status"] != "OK" or run["final"] != "done" or got != exp:
+            if run["status"] == "OK" and run["final"] != "done":
+                got = got + ["<%s %s>" % (run["final"], run["msg"])]
+            bad.append((src, exp, got))
+    bad.sort(key=lambda t: len(t[0]))
+    return bad
+
+
+# ------------------------------------------------------------------------------------------------
 # Sylt programs
 
 def sylt_program(body_lines, use_decls=False):
